@@ -6,6 +6,7 @@ import Drv.Hdf5
 import Drv.LinearScoring
 import Drv.Linear
 import Drv.FA
+import Drv.Own
 open Lean Drv
 
 def dispatch (j : Json) : Json :=
@@ -26,6 +27,7 @@ def dispatch (j : Json) : Json :=
   | "fa_enroll" => opFaEnroll j
   | "fa_blocks" => opFaBlocks j
   | "fa_score" => opFaScore j
+  | "own_check" => opOwnCheck j
   | "kmeans_dist" => opKMeansDist j
   | "kmeans_vw" => opKMeansVW j
   | op => obj [("err", Json.str s!"bad-op {op}")]
